@@ -1,6 +1,7 @@
 (* C11Check.v — judges observed per-call deliveries of the real writer::Normalize.
    The monitor `c11_ok` is written against the property text, independently of Model/Normalize.v. *)
 From CV Require Import Model.Base Model.Events Model.Contract Model.Normalize Proofs.NormalizeP2 Check.Verdict.
+From CV Require Proofs.ReviewP2.
 
 Record ncase := mk_ncase {
   nc_events : list mev;
@@ -94,7 +95,10 @@ Definition c11_ok (es : list mev) (calls : list (list mev)) : bool :=
        && match rev out with (_, EvFinished) :: _ => true | _ => false end
        && normalized (map snd out)))
   (* an already sequential stream passes through unchanged, event by event *)
-  && (negb (normalized_prefix (map snd es)) || list_eqb (list_eqb mev_eqb) calls (map (fun e => [e]) es)).
+  && (negb (normalized_prefix (map snd es)) || list_eqb (list_eqb mev_eqb) calls (map (fun e => [e]) es))
+  (* head-liveness in the observable form of Proofs/ReviewP2.v (module RA: the head feature / rule / attempt is computed
+     from the input prefix and the output so far only), after every call *)
+  && forallb (fun n => ReviewP2.RA.head_ok (firstn n es) (concat (firstn n calls))) (seq 1 (length es)).
 
 Definition verdict (id : N) (c : ncase) : list (list N) :=
   let m := nrun (nc_events c) in
